@@ -216,6 +216,11 @@ def set_num (dest : Nat) (z : Int) (h : Heap) : Heap := setNum h dest z
 /-- `mpq_set_den` (set_den.c:25-36) -/
 def set_den (dest : Nat) (z : Int) (h : Heap) : Heap := setDen h dest z
 
+/-- `mpq_get_num` (get_num.c): the value stored into the destination mpz (size and limbs copied) -/
+def get_num (src : Nat) (h : Heap) : Int := (h src).num
+/-- `mpq_get_den` (get_den.c) -/
+def get_den (src : Nat) (h : Heap) : Int := (h src).den
+
 /-- `mpq_swap` (swap.c:25-62): alloc, size and pointer of the numerators change places, then of the
     denominators; the three field swaps of one cell are fused. -/
 def swap (u v : Nat) (h : Heap) : Heap :=
